@@ -32,6 +32,12 @@ pub enum RadioError {
     RngUnsupported,
 }
 
+/// Low data rate optimization, decided the same way for every chip and for the airtime
+/// calculator: on when the symbol time is at least 16.38 ms (SX126x DS 6.1.1.4, SX127x DS 4.1.1.6).
+pub(crate) fn low_data_rate_optimize(spreading_factor: SpreadingFactor, bandwidth: Bandwidth) -> u8 {
+    BaseBandModulationParams::new(spreading_factor, bandwidth, CodingRate::_4_5).ldro as u8
+}
+
 /// Status for a received packet
 #[derive(Clone, Copy)]
 #[cfg_attr(feature = "defmt-03", derive(defmt::Format))]
